@@ -102,7 +102,7 @@ pub fn check(sc: &Scenario, env: &mut Env) -> Result<Outcome, HarnessError> {
             continue;
         }
         let u = run_underlying(sc, env, wi)?;
-        let ex = expect(&w.layers, &u, &sc.cwd)?;
+        let ex = expect(&w.layers, &u, &env.root_text)?;
         // every observer: each filter_entry closure, the pass-through placed last, and (with
         // taps) the closure-free taps above every layer
         let mut observers: Vec<(String, Vec<String>)> = Vec::new();
